@@ -30,6 +30,13 @@ static int symI(int lo, int hi, int dflt)
 {
     return (GROUP == 0 || GROUP == gCur) ? vin(lo, hi) : dflt;
 }
+#ifdef DISTINCT_TESTVAR
+#    define NV1 2
+#    define TESTVAR_INDEX 1
+#else
+#    define NV1 1
+#    define TESTVAR_INDEX 0
+#endif
 #define SAME(what, a, b) vcheck((a) == (b), "clone preserves " what)
 
 struct Skeleton
@@ -37,7 +44,7 @@ struct Skeleton
     ModelPtr m;
     UnitsPtr u;
     ComponentPtr c1, c2;
-    VariablePtr v1, v2;
+    VariablePtr v1, v2, v3;
     ResetPtr r;
 };
 static void build(Skeleton &s)
@@ -76,6 +83,10 @@ static void build(Skeleton &s)
     s.v2 = Variable::create("w");
     s.v2->setUnits("second");
     s.c1->addVariable(s.v1);
+#ifdef DISTINCT_TESTVAR
+    s.v3 = Variable::create("t"); // the reset's test variable is a second variable of the component (parts roots only: it makes the model queries 10x slower)
+    s.c1->addVariable(s.v3);
+#endif
     s.c2->addVariable(s.v2);
     s.c1->addComponent(s.c2);
     s.m->addComponent(s.c1);
@@ -91,7 +102,11 @@ static void build(Skeleton &s)
     s.r->setId(sym('n'));
     if (symI(0, 1, 0)) s.r->setOrder(symI(-1, 1, 1));
     s.r->setVariable(s.v1);
+#ifdef DISTINCT_TESTVAR
+    s.r->setTestVariable(s.v3); // a different variable of the same component
+#else
     s.r->setTestVariable(s.v1);
+#endif
     s.r->setTestValue(sym('t'));
     s.r->setTestValueId(sym('o'));
     s.r->setResetValue(sym('q'));
@@ -151,8 +166,8 @@ extern "C" void h_clone_model()
     SAME("the component id", s.c1->id(), kc1->id());
     SAME("the component encapsulation id", s.c1->encapsulationId(), kc1->encapsulationId());
     SAME("the component math", s.c1->math(), kc1->math());
-    vcheck(kc1->componentCount() == 1 && kc1->variableCount() == 1 && kc1->resetCount() == 1, "clone preserves the numbers of children of a component");
-    if (!(kc1->componentCount() == 1 && kc1->variableCount() == 1 && kc1->resetCount() == 1)) return;
+    vcheck(kc1->componentCount() == 1 && kc1->variableCount() == NV1 && kc1->resetCount() == 1, "clone preserves the numbers of children of a component");
+    if (!(kc1->componentCount() == 1 && kc1->variableCount() == NV1 && kc1->resetCount() == 1)) return;
     ComponentPtr kc2 = kc1->component(0);
     SAME("the child component name", s.c2->name(), kc2->name());
     SAME("the child component id", s.c2->id(), kc2->id());
@@ -164,7 +179,7 @@ extern "C" void h_clone_model()
     vcheck(kv2->units() != nullptr && kv2->units() != s.v2->units(), "a cloned variable never shares a units object with the original (standard-named units included)");
     ResetPtr kr = kc1->reset(0);
     compareReset(s.r, kr);
-    vcheck(kr->variable() == kv1 && kr->testVariable() == kv1, "a cloned reset refers to the clone's own variables");
+    vcheck(kr->variable() == kv1 && kr->testVariable() == kc1->variable(TESTVAR_INDEX), "a cloned reset refers to the clone's own variables, each at its own position");
 #ifdef WITH_EQUIV
     // equivalences: present, between the clone's own variables, with the same ids
     vcheck(kv1->equivalentVariableCount() == 1 && kv2->equivalentVariableCount() == 1, "clone preserves variable equivalences");
@@ -190,7 +205,7 @@ extern "C" void h_clone_independent()
     NO_UNCAUGHT();
     if (k == nullptr || k->unitsCount() != 1 || k->componentCount() != 1) return;
     ComponentPtr kc1 = k->component(0);
-    if (kc1->componentCount() != 1 || kc1->variableCount() != 1 || kc1->resetCount() != 1) return;
+    if (kc1->componentCount() != 1 || kc1->variableCount() != NV1 || kc1->resetCount() != 1) return;
     VariablePtr kv1 = kc1->variable(0);
     VariablePtr kv2 = kc1->component(0)->variable(0);
     ResetPtr kr = kc1->reset(0);
@@ -234,12 +249,12 @@ extern "C" void h_clone_parts()
     SAME("the component id", s.c1->id(), kc->id());
     SAME("the component encapsulation id", s.c1->encapsulationId(), kc->encapsulationId());
     SAME("the component math", s.c1->math(), kc->math());
-    vcheck(kc->componentCount() == 1 && kc->variableCount() == 1 && kc->resetCount() == 1, "clone preserves the numbers of children of a component");
-    if (kc->componentCount() == 1 && kc->variableCount() == 1 && kc->resetCount() == 1) {
+    vcheck(kc->componentCount() == 1 && kc->variableCount() == NV1 && kc->resetCount() == 1, "clone preserves the numbers of children of a component");
+    if (kc->componentCount() == 1 && kc->variableCount() == NV1 && kc->resetCount() == 1) {
         SAME("the child component encapsulation id", s.c2->encapsulationId(), kc->component(0)->encapsulationId());
         compareVariable(s.v1, kc->variable(0));
         compareReset(s.r, kc->reset(0));
-        vcheck(kc->reset(0)->variable() == kc->variable(0), "a cloned reset refers to the clone's own variables");
+        vcheck(kc->reset(0)->variable() == kc->variable(0) && kc->reset(0)->testVariable() == kc->variable(TESTVAR_INDEX), "a cloned reset refers to the clone's own variables, each at its own position");
         vcheck(kc->variable(0)->equivalentVariableCount() == 0, "a lone cloned component carries no equivalences");
     }
     ResetPtr kr = s.r->clone();
